@@ -218,7 +218,12 @@ func genC01(rng *rand.Rand, n int, thorough bool, emit func(string)) {
 		if !conn && rng.Intn(6) == 0 {
 			stop = fmt.Sprint(1 + rng.Intn(4))
 		}
-		emit(parseCaseLine(conn, endErr, ewl, cfg, stop, chunks))
+		line := parseCaseLine(conn, endErr, ewl, cfg, stop, chunks)
+		emit(line)
+		if i%8 == 3 {
+			// the same run for event.go's read as translated (Gen/Event.lean) over the model's parser
+			emit("G" + line)
+		}
 	}
 }
 
